@@ -429,6 +429,7 @@ func TestC08(t *testing.T) {
 			"oracle: an EXECUTE/BATCH of ids that were PREPAREd through the proxy is never answered UNPREPARED, succeeds whenever fewer re-preparations are scripted to fail than hosts are up (idempotent or no connection loss), and is always answered; "+
 			"non-trivial = an EXECUTE/BATCH that can land on a host lacking the statement; distinct by case content")
 	defer finish(t, rec)
+	rec.SetJournalAll(true)
 	rec.Assume("every statement text belongs to one client class (version, compression): sharing a text between classes is the recorded cross-session finding, demonstrated by the 'shared' sub-check",
 		"hosts that join later are announced by making the control connection re-read the peers table (the 10s refresh window is not configurable through proxy.Config)")
 	runProp(t, rec, "history", perShard(evid.Pick(1200, 40000)), func(rt *rapid.T) c08Case {
